@@ -133,7 +133,22 @@ def make_case(k, form, a, s, b, stream, inline=False):
             lines.append(define("s", k, s))
         if use_var[2]:
             lines.append(define("b", k, b))
-        lines.append(expr(form, "a" if use_var[0] else il(a), "s" if use_var[1] else il(s), "b" if use_var[2] else il(b)))
+        bound = (h % 7) == 3 and k != "c64" and not mixed
+        if bound:
+            # one operand is a name bound by a match arm (a local environment, not the symbol table); a global of the
+            # same name with another value is defined first in half of the cases
+            which = ((h >> 12) % 3) if stepf else (0 if (h >> 12) & 1 else 2)
+            val = (a, s, b)[which]
+            names = ["a", "s", "b"]; names[which] = "z"
+            lines = [define(n, k, v) for n, v, w in (("a", a, 0), ("s", s, 1), ("b", b, 2)) if w != which and (w != 1 or stepf)]
+            if (h >> 14) & 1:
+                lines.append(define("z", k, (b, a, a)[which]))
+            lines.append(define("m", k, val))
+            zero = {"f64": "0", "f32": "0<f32>", "r64": "0/1"}.get(k, "0%s" % k)
+            lines.append("m? | z => %s | * => [%s]." % (expr(form, names[0], names[1], names[2]), zero))
+            stream = stream + "-armbound"
+        else:
+            lines.append(expr(form, "a" if use_var[0] else il(a), "s" if use_var[1] else il(s), "b" if use_var[2] else il(b)))
         src = "\n".join(lines)
         if mixed:
             stream = stream + "-mixed"
